@@ -29,7 +29,7 @@
      (a directory is withheld when ANY requested file it lists failed). *)
 From stdpp Require Import gmap.
 From Coq Require Import NArith.
-From DvcData Require Import Base.Val Model.Status Proofs.StatusProofs Proofs.StatusHistoryProofs.
+From DvcData Require Import Base.Val Model.Status Gen.StatusPy Proofs.StatusProofs Proofs.StatusHistoryProofs Proofs.StatusTie.
 Open Scope N_scope.
 
 (* ---- status without an index is exact (shallow and expanded) *)
@@ -149,3 +149,51 @@ Theorem C12_history_dir_fresh : ∀ E remote ops q sh s' ex mi,
   ∀ D, D ∈ ex → is_dir_oid D = true → D ∈ s_remote (run E (init_state remote) ops).
 Proof. exact history_dir_fresh. Qed.
 Print Assumptions C12_history_dir_fresh.
+
+(* ---- the tie to the source.  Gen/StatusPy.v is regenerated on every run from hashfile/status.py
+   (translator/statusunit.py: the set algebra of _indexed_dir_hashes / status / compare_status is
+   translated statement by statement, loops and call sites are shape-checked with their decisions
+   flowing into the text).  The translated fragments are EQUAL to the model's functions: every
+   theorem above is a theorem about the statements that are in the source now; a semantic edit
+   of those statements that still translates breaks one of these equalities. *)
+Theorem C12_tie_validate : ∀ st ix dirs,
+  py_validate st ix (list_to_set dirs) = ((revalidate st ix).1, dir_exists st (revalidate st ix).2 dirs).
+Proof. exact py_validate_tie. Qed.
+Print Assumptions C12_tie_validate.
+
+Theorem C12_tie_indexed_dir_hashes : ∀ st load ix dirs,
+  py_indexed_dir_hashes st load ix dirs = indexed_dir_hashes st load ix dirs.
+Proof. exact py_indexed_dir_hashes_tie. Qed.
+Print Assumptions C12_tie_indexed_dir_hashes.
+
+Theorem C12_tie_status : ∀ st load ix q sh,
+  (py_registers_shallow = true ∧ py_registers_expanded = true) ∧
+  status_plain st load q sh =
+    match collect load sh q with
+    | None => Err 2
+    | Some hashes => Ok (py_status_tail_plain st hashes (negb (bool_decide (req_dirs q = []))))
+    end ∧
+  status_ix st load ix q sh =
+    match collect load sh q with
+    | None => Err 2
+    | Some hashes =>
+        let '(e, m, ix') :=
+          py_status_tail_ix st ix hashes (negb (bool_decide (req_dirs q = [])))
+                            (λ i, py_indexed_dir_hashes st load i (req_dirs q)) in
+        Ok (e, m, ix')
+    end.
+Proof.
+  intros. split; [exact py_registers_tie|]. split; [apply py_status_plain_tie|apply py_status_ix_tie].
+Qed.
+Print Assumptions C12_tie_status.
+
+Theorem C12_tie_compare : ∀ src dst load_s load_d six dix q sh cd,
+  py_compare_status src dst load_s load_d six dix q sh cd
+  = compare_status src dst load_s load_d six dix q sh cd.
+Proof. exact py_compare_tie. Qed.
+Print Assumptions C12_tie_compare.
+
+(* C12_exact on the translated statements themselves *)
+Theorem C12_exact_source : ∀ st ids hd, py_status_tail_plain st ids hd = (ids ∩ st, ids ∖ st).
+Proof. exact py_status_plain_exact. Qed.
+Print Assumptions C12_exact_source.
